@@ -40,9 +40,9 @@ CLAIMED['C04'] = ('Coq proofs over Model/Status.v + History.v: converse of C03 (
          'proof: if since its last successful execution nothing listed in the documented conditions changed, get_status answers up-to-date and the runner model does not execute the task; after run_all of any task list from any history a second run executes exactly the tasks with a false uptodate item or without file_dep and evaluated item; under md5 a touch or same-content rewrite leaves get_status unchanged; FS-fresh necessity witnessed',
          'trusted: as C03 (same models, same correspondence run); serial runner decision modelled by run_task (select_task + result processing, no setup-tasks)',
          'DESIGN.md 5-C04')
-CLAIMED['C01'] = ('Coq invariant proof over Model/Dispatch.v + Runner.v (+ Parallel.v): accounting invariant of the dispatcher (every dependency is pending / being iterated / waited for / finished), queue discipline, statuses frame => whenever a task is started every declared dependency has a final event earlier in the trace; correspondence event-for-event against the real dispatcher and runners under a deterministic scheduler',
-         'proof: for every task table, selection, --continue/--always, set-iteration oracle and fuel (= every prefix of every run) the serial runner model emits EExecute t only after a final report of every task in t.task_dep (explicit, wild-card, file_dep on a target, result_dep, delayed trigger), t.calc_dep and t.setup (incl. getargs) [C01_serial_dep_order]; the parallel statement (every PStart under every schedule) is given in Properties/C01.v as soon as Proofs/ParallelP.v is complete - until then the parallel runners are covered by the correspondence (all schedules of small graphs, random schedules beyond) and by the oracle on the implementation traces; real multiprocessing is sampled',
-         'trusted: Coq kernel; hand models tied by 732 (quick) cases incl. all DAGs <= 3 tasks x all schedules k=2 for thread and process flavour, random graphs to 10 tasks with calc_dep/setup/getargs/failures; Dependency is a fake at the runner seam (status per task is an input); scheduler granularity assumption; process flavour simulated in threads with per-worker runner copies',
+CLAIMED['C01'] = ('Coq invariant proofs over Model/Dispatch.v + Runner.v + Parallel.v: accounting invariant of the dispatcher (every dependency is pending / being iterated / waited for / finished), queue discipline, statuses frame, and for the parallel runners an invariant over main-thread state, job queue, busy workers and result queue => whenever a task is started every declared dependency has a final report earlier in the trace, under every schedule; correspondence event-for-event against the real dispatcher and runners under a deterministic scheduler',
+         'proof: for every task table, selection, --continue/--always, set-iteration oracle and fuel (= every prefix of every run): the serial runner emits EExecute t only after a final report of every task in t.task_dep (explicit, wild-card, file_dep on a target, result_dep, delayed trigger), t.calc_dep and t.setup (incl. getargs) [C01_serial_dep_order]; MRunner (process flavour) and MThreadRunner with ANY number of workers and under EVERY schedule of the model start the actions of t in a worker (PStart) only after those final reports [C01_parallel_dep_order] - hence dependency-related tasks never overlap.  Dependencies returned by calc_dep tasks at run time are covered by the dispatcher invariant (deps_final over n_all_task/n_all_calc) and by the oracle on implementation traces, not yet by a trace-level theorem; real multiprocessing is sampled',
+         'trusted: Coq kernel; hand models tied by 732 (quick) cases incl. all DAGs <= 3 tasks x all schedules k=2 for thread and process flavour, random graphs to 10 tasks with calc_dep/setup/getargs/failures; Dependency is a fake at the runner seam (status per task is an input); scheduler granularity assumption (main-thread segments and worker steps commute except through the queues); process flavour simulated in threads with per-worker runner copies',
          'DESIGN.md 5-C01')
 CLAIMED['C02'] = ('Coq invariant proof (a node that passed its last `yield this_task` is spent and never handed to the runner again; executed => spent) over Model/Dispatch.v + Runner.v + correspondence of all runners + oracle',
          'proof: in every serial run (any table, selection, flags, oracle, fuel) no task is executed twice [C02_exec_once_serial].  NOT yet proved: exactly one final report per closure task and nothing outside the closure (needs the progress invariant); both are checked on every implementation trace by the oracle, for all runners',
